@@ -1,11 +1,13 @@
 #!/usr/bin/env python3
-"""Fills the @@..@@ placeholders of DESIGN.md section 7.2 from sweep/results.jsonl + triage.json."""
+"""Regenerates the table of DESIGN.md section 7.2 (between the sweep-numbers markers) from sweep/results.jsonl + triage.json."""
 import json, os, re
 V = os.path.dirname(os.path.dirname(os.path.abspath(__file__)))
 plan = {json.loads(l)["id"] for l in open(os.path.join(V, "sweep", "plan.jsonl"))}
 res = {}
 for l in open(os.path.join(V, "sweep", "results.jsonl")):
     r = json.loads(l)
+    if r["status"] == "silent" and r["id"] in res and res[r["id"]]["status"] != "silent":
+        continue
     res[r["id"]] = r
 tri = json.load(open(os.path.join(V, "sweep", "triage.json")))
 c = {}
@@ -17,12 +19,20 @@ for i, r in res.items():
         st = "survivor:" + tri.get(i, {}).get("verdict", "untriaged")
     c[st] = c.get(st, 0) + 1
 surv = sum(v for k, v in c.items() if k.startswith("survivor:"))
-vals = {"N_TOTAL": len(plan), "N_DNC": c.get("does-not-compile", 0), "N_CAUGHT": c.get("caught", 0), "N_KILLED": c.get("killed-by-tests", 0), "N_SURV": surv,
-        "N_EQ": c.get("survivor:equivalent", 0), "N_IRR": c.get("survivor:irrelevant", 0), "N_HOLE": c.get("survivor:hole-fixed", 0),
-        "N_SILENT": c.get("silent", 0) + (len(plan) - len([i for i in res if i in plan]))}
+rows = [("edits generated", len(plan)),
+        ("does not compile", c.get("does-not-compile", 0)),
+        ("reported by a check when first run", c.get("caught", 0)),
+        ("silent, but the pinned suite rejects it", c.get("killed-by-tests", 0)),
+        ("silent **and** accepted by the suite (survivor)", surv),
+        ("… of which equivalent (`.iter().rev().any(..)`, dead code)", c.get("survivor:equivalent", 0)),
+        ("… of which irrelevant to every property (listing order of an accessor, progress reporter, range of a diagnostic, loader hints, supersets of traced names)", c.get("survivor:irrelevant", 0)),
+        ("… of which a hole: a property-relevant decision no rule looked at (rule added)", c.get("survivor:hole-fixed", 0)),
+        ("… of which not triaged yet", c.get("survivor:untriaged", 0)),
+        ("silent, suite verdict not computed / not run before the time ran out", c.get("silent", 0) + c.get("stale", 0) + (len(plan) - len([i for i in res if i in plan])))]
+tab = "| verdict | count |\n|---|---|\n" + "".join("| %s | %d |\n" % r for r in rows)
 p = os.path.join(V, "DESIGN.md")
 s = open(p).read()
-for k, v in vals.items():
-    s = s.replace("@@%s@@" % k, str(v))
-open(p, "w").write(s)
-print(vals, {k: v for k, v in c.items() if k.startswith("survivor:untri")})
+b, e = "<!-- sweep-numbers:begin -->\n", "<!-- sweep-numbers:end -->"
+i, j = s.index(b) + len(b), s.index(e)
+open(p, "w").write(s[:i] + tab + s[j:])
+print(rows)
